@@ -1,20 +1,109 @@
 (* Properties_C12.v — frequent items: the bounds bracket the true weight, the total is exact, result-set guarantees,
-   descending order, epsilon bound.  Statements only; proofs live in FiProofs.v (abstract layer L1) and
-   FiMapProofs.v (the reverse-purge hash map L2).
-   The theorems quantify over ANY item type with a decidable equality, ANY history of updates, and purges with ANY
-   non-negative decrement at ANY time (so they cover whatever median the code samples and whenever it purges), merges
-   that replay the operand's counters in any order, and round trips.
-   Three clauses of the property text are FALSE for the code and therefore for the model that mirrors it; they are
-   stated here with the hypothesis that makes them true, and each has a machine-checked refutation witness computed
-   on the executable L2 model (Examples *_refuted at the end):
-     - merge / serialize of a sketch with no active counter but non-zero total and offset (all counters purged),
-     - NO_FALSE_NEGATIVES with a threshold below the maximum error,
-     - the epsilon bound after merging a sketch with a smaller lg_max_map_size. *)
+   descending order, epsilon bound.  Statements only; proofs live in FiProofs.v (abstract layer L1: histories with ANY purge
+   decrement), FiMapProofs.v / FiDelProofs.v / FiIterProofs.v (the reverse-purge hash map L2: insert, back-shift delete,
+   subtract_and_keep_positive_only, stride iterator) and FiRefine.v (the executable sketch model L2 — the definitions that are
+   extracted and run against the C++ — keeps the bracket invariant over every history).
+   Part A (L2, executable model): ANY item type with a decidable equality, ANY hash function, every history of
+     new / update (any weight >= 0) / merge (any two reachable sketches, also of different sizes, also self) /
+     serialize+deserialize / copy.
+   Part B (L1, abstract): the same statements for purges with ANY non-negative decrement at ANY time, so the guarantees do not
+     depend on the sampled median nor on when the map decides to purge.
+   Two clauses of the property text are FALSE for the code (known findings) and one more is not attainable:
+     - serialize of a sketch with no active counter but non-zero total and offset (all counters purged) writes the empty
+       form: hypothesis "nact <> 0 \/ T = 0" in SR_roundtrip; witness C12_roundtrip_purged_empty_refuted;
+     - NO_FALSE_NEGATIVES with a threshold below the maximum error cannot return untracked items: hypothesis
+       "offset <= threshold"; witness C12_nfn_small_threshold_refuted; the Java clamp would not change that (C12_nfn_clamp_noop);
+     - the epsilon bound after merging a sketch with a smaller lg_max_map_size: witness C12_eps_mixed_sizes_refuted.
+   The merge of a purged-empty operand was a defect of the code, repaired (fixes/12_1_fi_merge_purged_empty.patch); the old
+   behaviour is refuted in Regression_fi.v. *)
 From Coq Require Import ZArith NArith List Bool Lia Permutation Sorting.Sorted.
-From DS Require Import Word Murmur3 RunnerLib FiDefs FiProofs.
+From DS Require Import Word Murmur3 RunnerLib FiDefs FiProofs FiMapProofs FiDelProofs FiIterProofs FiRefine FiEps FiSerProofs.
 Import ListNotations.
 Local Open Scope Z_scope.
 
+(* ===================== Part A: the executable model (L2) ===================== *)
+Section Executable.
+  Variable Item : Type.
+  Variable eqb : Item -> Item -> bool.
+  Hypothesis eqb_spec : forall a b, eqb a b = true <-> a = b.
+  Variable hash : Item -> N.
+
+  (* every sketch reachable by new / update / merge / round trip: t = true weight of every item, T = true total weight *)
+  Theorem C12_sk_bracket : forall s t T x, SReach Item eqb hash s t T ->
+    sk_lb Item eqb hash s x <= t x <= sk_ub Item eqb hash s x /\
+    sk_lb Item eqb hash s x <= sk_est Item eqb hash s x <= sk_ub Item eqb hash s x /\
+    sk_ub Item eqb hash s x - sk_lb Item eqb hash s x = sk_off Item s /\
+    sk_tot Item s = T.
+  Proof. exact (sk_bracket Item eqb eqb_spec hash). Qed.
+
+  (* NO_FALSE_NEGATIVES (threshold >= maximum error; the default threshold IS the maximum error) *)
+  Theorem C12_sk_no_false_negatives : forall s t T thr x, SReach Item eqb hash s t T ->
+    sk_off Item s <= thr -> thr < t x ->
+    exists c, In c (sk_rows Item true s thr) /\ ck Item c = x /\ cv Item c = sk_lb Item eqb hash s x.
+  Proof. exact (sk_no_false_negatives Item eqb eqb_spec hash). Qed.
+
+  (* NO_FALSE_POSITIVES, ANY threshold *)
+  Theorem C12_sk_no_false_positives : forall s t T thr c, SReach Item eqb hash s t T ->
+    In c (sk_rows Item false s thr) -> thr < t (ck Item c) /\ cv Item c = sk_lb Item eqb hash s (ck Item c).
+  Proof. exact (sk_no_false_positives Item eqb eqb_spec hash). Qed.
+
+  (* the hash map refines a finite map: get reads the counter of the key; insert adds; back-shift delete removes exactly one
+     key; subtract_and_keep_positive_only = subtract everywhere, keep the positive; the iterator meets every counter once *)
+  Theorem C12_map_get : forall t y, ProbeInv Item hash t ->
+    tget Item eqb hash t y = a_get Item eqb (abs_ents Item t) y.
+  Proof. exact (tget_abs Item eqb eqb_spec hash). Qed.
+
+  Theorem C12_map_insert : forall t k v, ProbeInv Item hash t -> has_empty Item t ->
+    let '(t', ins) := raw_insert Item eqb hash t k v in
+    ProbeInv Item hash t' /\ length t' = length t /\
+    (forall y, tget Item eqb hash t' y = tget Item eqb hash t y + (if eqb k y then v else 0)) /\
+    (ins = true <-> absent Item t k).
+  Proof. exact (raw_insert_correct Item eqb eqb_spec hash). Qed.
+
+  Theorem C12_map_delete : forall t p c0 L, ProbeInv Item hash t -> slot Item t p = Some c0 ->
+    (1 <= L < length t)%nat -> slot Item t (pos (length t) p L) = None ->
+    ProbeInv Item hash (hash_delete Item t p) /\
+    Permutation (abs_ents Item t) ((ck Item c0, cv Item c0) :: abs_ents Item (hash_delete Item t p)).
+  Proof.
+    intros t p c0 L Pi Hp HL Hn. split.
+    - exact (proj1 (hash_delete_spec Item hash t p c0 L Pi Hp HL Hn)).
+    - exact (hash_delete_perm Item hash t p c0 L Pi Hp HL Hn).
+  Qed.
+
+  Theorem C12_map_subtract : forall t cnt amount, ProbeInv Item hash t -> has_empty Item t ->
+    let '(t', cnt') := subtract_kpo Item t cnt amount in
+    ProbeInv Item hash t' /\ length t' = length t /\ has_empty Item t' /\
+    Permutation (abs_ents Item t') (a_purge Item (abs_ents Item t) amount) /\
+    cnt' - Z.of_nat (length (active_cells Item t')) = cnt - Z.of_nat (length (active_cells Item t)).
+  Proof. exact (subtract_kpo_correct Item hash). Qed.
+
+  Theorem C12_map_iterator : forall (m : rpmap Item) k, length (tab Item m) = (2 ^ k)%nat ->
+    nact Item m = Z.of_nat (length (active_cells Item (tab Item m))) ->
+    Permutation (entries Item m) (active_cells Item (tab Item m)).
+  Proof. exact (entries_perm Item). Qed.
+
+  (* epsilon: every sketch of the history has lg_max_map_size <= 10 (the purge samples the whole map); merges of a sketch with
+     the same or a larger lg_max; round trips: maximum error <= 3.5 / 2^lg_max * total weight *)
+  Theorem C12_sk_eps_bound : forall s, EReach Item eqb hash s ->
+    2 * 2 ^ Z.of_N (lgm Item (sk_map Item s)) * sk_off Item s <= 7 * sk_tot Item s.
+  Proof. exact (sk_eps_bound Item eqb eqb_spec hash). Qed.
+End Executable.
+
+(* the serialized image (byte layout compared with the C++ on every run): deserialize (serialize s) is the semantic round
+   trip, so a reachable sketch that is not purged-empty comes back as a sketch with the same guarantees *)
+Theorem C12_ser_roundtrip : forall kind (s : sk), SerOk kind s ->
+  sk_deserialize kind (sk_serialize kind s) = Some (sk_roundtrip item item_eqb (fi_hash kind) s).
+Proof. exact ser_roundtrip. Qed.
+
+Theorem C12_ser_roundtrip_bracket : forall kind (s : sk) t T, SReach item item_eqb (fi_hash kind) s t T -> SerOk kind s ->
+  nact item (sk_map item s) <> 0 \/ T = 0 ->
+  exists s', sk_deserialize kind (sk_serialize kind s) = Some s' /\ SReach item item_eqb (fi_hash kind) s' t T.
+Proof.
+  intros kind s t T R Ok Hne. exists (sk_roundtrip item item_eqb (fi_hash kind) s).
+  split; [exact (ser_roundtrip kind s Ok)|now apply SR_roundtrip].
+Qed.
+
+(* ===================== Part B: the abstract sketch (L1), purges with ANY decrement ===================== *)
 Section AnyItem.
   Variable Item : Type.
   Variable eqb : Item -> Item -> bool.
@@ -40,8 +129,7 @@ Section AnyItem.
     a_tot Item s = T.
   Proof. exact (fi_reach_bracket Item eqb eqb_spec). Qed.
 
-  (* merge: the operand's counters replayed as updates in any order, purges wherever they fall; offsets added; total fixed up.
-     Hypothesis "the operand has at least one counter": see C12_merge_purged_empty_refuted *)
+  (* merge: the operand's counters replayed as updates in any order, purges wherever they fall; offsets added; total fixed up *)
   Theorem C12_fi_merge_bracket : forall a ta Ta b tb Tb h x,
     Reach Item eqb a ta Ta -> Reach Item eqb b tb Tb -> replays Item eqb h b ->
     let m := a_merge Item eqb a b h in
@@ -68,8 +156,6 @@ Section AnyItem.
     exact (fi_reach_bracket Item eqb eqb_spec m _ _ x (R_roundtrip Item eqb s t T h Hs Hn Hw Hne)).
   Qed.
 
-  (* NO_FALSE_NEGATIVES: every item whose true weight exceeds the threshold is returned (with its lower bound),
-     for thresholds >= the maximum error (the default threshold IS the maximum error); see C12_nfn_small_threshold_refuted *)
   Theorem C12_no_false_negatives : forall s t T thr x, Reach Item eqb s t T ->
     a_off Item s <= thr -> thr < t x -> In (x, a_lb Item eqb s x) (a_rows Item true s thr).
   Proof.
@@ -77,13 +163,17 @@ Section AnyItem.
     exact (no_false_negatives Item eqb eqb_spec s t thr x Hi).
   Qed.
 
-  (* NO_FALSE_POSITIVES: only items whose true weight exceeds the threshold, for ANY threshold *)
   Theorem C12_no_false_positives : forall s t T thr x v, Reach Item eqb s t T ->
     In (x, v) (a_rows Item false s thr) -> thr < t x /\ v = a_lb Item eqb s x.
   Proof.
     intros s t T thr x v Hr. destruct (Reach_Inv Item eqb eqb_spec s t T Hr) as [Hi _].
     exact (no_false_positives Item eqb eqb_spec s t thr x v Hi).
   Qed.
+
+  (* clamping the threshold to the maximum error (as the Java code does) does not change the NO_FALSE_NEGATIVES rows *)
+  Theorem C12_nfn_clamp_noop : forall (s : ask Item) thr, Forall (fun kv => 0 < snd kv) (a_ents Item s) ->
+    a_rows Item true s thr = a_rows Item true s (Z.max thr (a_off Item s)).
+  Proof. exact (nfn_clamp_noop Item). Qed.
 
   (* rows come in descending estimate order *)
   Theorem C12_rows_sorted_desc : forall nfn (s : ask Item) thr,
@@ -118,9 +208,52 @@ Example C12_nonvacuous :
   sk_off _ s = 1 /\ sk_tot _ s = 25 /\ lb0 s 9 = 14 /\ ub0 s 9 = 15 /\ lb0 s 3 = 0 /\ ub0 s 3 = 1 /\ lb0 s 1 = 1 /\ ub0 s 1 = 2.
 Proof. vm_compute. repeat split; reflexivity. Qed.
 
+(* the same run is a reachable history of Part A (hypotheses of C12_sk_bracket are satisfiable), true weights 15 / 1 / 2 *)
+Example C12_sk_nonvacuous :
+  exists t T, SReach item item_eqb (fi_hash 0)
+                (feed (sk_new item 3 3) [(9,10);(1,1);(2,2);(3,1);(4,3);(5,1);(6,1);(9,5);(1,1)]) t T /\
+              t (u64item 9) = 15 /\ t (u64item 3) = 1 /\ t (u64item 1) = 2 /\ T = 25.
+Proof.
+  unfold feed, upd. cbn [fold_left fst snd]. eexists. eexists. split.
+  - repeat (eapply SR_update; [|lia]). apply SR_new. lia.
+  - vm_compute. repeat split; reflexivity.
+Qed.
+
+(* a merge of two reachable sketches, one of them purged empty (the repaired case) *)
+Example C12_sk_merge_nonvacuous :
+  exists t T, SReach item item_eqb (fi_hash 0)
+                (sk_merge item item_eqb (fi_hash 0) (feed (sk_new item 3 3) [(100,5)]) purged_empty) t T /\
+              t (u64item 0) = 1 /\ t (u64item 100) = 5 /\ T = 12.
+Proof.
+  unfold purged_empty, seven_ones, feed, upd. cbn [fold_left fst snd]. eexists. eexists. split.
+  - eapply SR_merge; repeat (eapply SR_update; [|lia]); apply SR_new; lia.
+  - vm_compute. repeat split; reflexivity.
+Qed.
+
+(* the same history satisfies the hypotheses of C12_sk_eps_bound (lg_max 3 <= 10) *)
+Example C12_sk_eps_nonvacuous :
+  EReach item item_eqb (fi_hash 0) (feed (sk_new item 3 3) [(9,10);(1,1);(2,2);(3,1);(4,3);(5,1);(6,1);(9,5);(1,1)]).
+Proof.
+  unfold feed, upd. cbn [fold_left fst snd]. repeat (eapply ER_update; [|lia]). apply ER_new; lia.
+Qed.
+
+(* a serialized image: 4 preamble longs, 2 counters of a string sketch; it is read back *)
+Example C12_ser_nonvacuous :
+  let s := upd 2 (upd 2 (sk_new item 4 3) [97; 98] 7) [99] 2 in
+  sk_serialize 2 s = [4;1;10;4;3;0;0;0; 2;0;0;0; 0;0;0;0; 9;0;0;0;0;0;0;0; 0;0;0;0;0;0;0;0;
+                      7;0;0;0;0;0;0;0; 2;0;0;0;0;0;0;0; 2;0;0;0;97;98; 1;0;0;0;99] /\
+  (exists s', sk_deserialize 2 (sk_serialize 2 s) = Some s' /\ sk_lb item item_eqb (fi_hash 2) s' [97; 98] = 7).
+Proof. split; [vm_compute; reflexivity|]. eexists. split; [vm_compute; reflexivity|vm_compute; reflexivity]. Qed.
+
 (* seven distinct items of weight 1 in a map of capacity 6: the purge (median 1) removes every counter *)
 Example C12_purge_can_wipe_the_map :
   nact _ (sk_map _ purged_empty) = 0 /\ sk_tot _ purged_empty = 7 /\ sk_off _ purged_empty = 1.
+Proof. vm_compute. repeat split; reflexivity. Qed.
+
+(* serialize writes the empty form for it: the round trip forgets total and offset (known finding) *)
+Example C12_roundtrip_purged_empty_refuted :
+  let m := sk_roundtrip item item_eqb (fi_hash 0) purged_empty in
+  sk_tot _ m = 0 /\ sk_off _ m = 0 /\ ub0 m 0 = 0.
 Proof. vm_compute. repeat split; reflexivity. Qed.
 
 (* NO_FALSE_NEGATIVES with threshold 0 < maximum error 1 returns nothing although seven items have true weight 1 > 0 *)
@@ -135,6 +268,17 @@ Example C12_eps_mixed_sizes_refuted :
   sk_off _ big = 22 /\ sk_tot _ big = 139 /\ (7 * sk_tot _ big <? 2 * 2 ^ 8 * sk_off _ big) = true.
 Proof. vm_compute. repeat split; reflexivity. Qed.
 
+Print Assumptions C12_sk_bracket.
+Print Assumptions C12_sk_no_false_negatives.
+Print Assumptions C12_sk_no_false_positives.
+Print Assumptions C12_sk_eps_bound.
+Print Assumptions C12_ser_roundtrip.
+Print Assumptions C12_ser_roundtrip_bracket.
+Print Assumptions C12_map_get.
+Print Assumptions C12_map_insert.
+Print Assumptions C12_map_delete.
+Print Assumptions C12_map_subtract.
+Print Assumptions C12_map_iterator.
 Print Assumptions C12_fi_bracket.
 Print Assumptions C12_fi_total_exact.
 Print Assumptions C12_fi_reach_bracket.
@@ -142,6 +286,7 @@ Print Assumptions C12_fi_merge_bracket.
 Print Assumptions C12_fi_roundtrip_bracket.
 Print Assumptions C12_no_false_negatives.
 Print Assumptions C12_no_false_positives.
+Print Assumptions C12_nfn_clamp_noop.
 Print Assumptions C12_rows_sorted_desc.
 Print Assumptions C12_eps_bound.
 Print Assumptions C12_det_update_is_history.
